@@ -203,6 +203,9 @@ func checkC07(c *Ctx, r *Report) {
 		}
 		r.add("C07.f", "fieldflow", fi.Key+":no-names", "a field is embedded iff its declaration has no names", []string{fi.Key}, []string{w.pos(fi.Decl.Pos())}, viol)
 	}
+
+	ruleHelperShape(c, r, "C07.d", helperShape{Fn: "generator/swagen/swagtool.IsFieldRequired", AllowedCalls: []string{"strings.Split"}, MustConsts: []string{",", "required"},
+		Why: "a property is listed under `required` iff `required` is one of the comma-separated rules of its validate tag"})
 }
 
 // checkAliasWrites implements C07.a.
